@@ -244,3 +244,22 @@ Definition raises (g : igraph) (st' : state) (o : op) : bool :=
   | NoLongerProvides t x => i_providedBy g st' t x
   | _ => false
   end.
+
+(* ---- classification of the declaration calls (used to state non-interference) *)
+Definition decl_class (o : op) : option cls :=
+  match o with
+  | Implementer c _ | ImplementerOnly c _ | ClassImplements c _ | ClassImplementsOnly c _
+  | ClassImplementsFirst c _ => Some c
+  | _ => None
+  end.
+Definition decl_target (o : op) : option target :=
+  match o with
+  | DirectlyProvides t _ | AlsoProvides t _ | NoLongerProvides t _ | Provider t _ => Some t
+  | _ => None
+  end.
+(* an object-level declaration call on an instance other than o *)
+Definition other_inst_decl (o : obj) (p : op) : bool :=
+  match decl_target p with
+  | Some (TInst o') => negb (Nat.eqb o' o)
+  | _ => false
+  end.
